@@ -236,7 +236,7 @@ func c01OpRun(c *Case, rng *Rng, cfg c01OpCfg, initial, duringSync [][]c01Ev, af
 	}
 	ctx, cancel := context.WithCancel(context.Background())
 	defer cancel()
-	op, err := shell_operator.VerifAssemble(ctx, fc.Client, hooksDir, tmpDir, c01OpMetrics, c01OpMetrics)
+	op, err := shell_operator.VerifAssembleC01(ctx, fc.Client, hooksDir, tmpDir, c01OpMetrics, c01OpMetrics)
 	if err != nil {
 		c.Inconcl = "operator assembly failed: " + err.Error()
 		return
